@@ -484,13 +484,15 @@ func (q *Q) wants(m map[string][]string) {
 	}
 }
 
-func (q *Q) needs(m map[string][]string) {
+// needs reports every (table, key) a node of q needs. One query can need several keys of the
+// same table (two whole-row min/max summarizes on different columns of one table).
+func (q *Q) needs(add func(table string, key []string)) {
 	for t, k := range q.need {
-		m[t] = k
+		add(t, k)
 	}
 	for _, s := range []*Q{q.Src, q.L, q.R, q.Def} {
 		if s != nil {
-			s.needs(m)
+			s.needs(add)
 		}
 	}
 }
